@@ -9,11 +9,16 @@
    that byte column; G is systematic; G is "obtained from the Vandermonde matrix on the points 0, 1,
    x, x^2, ...": its row j satisfies (row j) * V_k = (1, x_j, x_j^2, ..., x_j^(k-1)) and is the ONLY
    row vector doing so (so G = V_n * V_k^-1), for every k <= 2^m, in GF(2)[x]/(x^8+x^4+x^3+x^2+1) and
-   GF(2)[x]/(x^4+x+1).  The C encoders (both codecs; codec 1 and codec 2 with m=8 therefore byte
-   compatible) are compared with the extracted model on every request of the check. *)
+   GF(2)[x]/(x^4+x+1).  InvertVdm.v models how the C BUILDS its generator (of_rs_new /
+   of_rs_2m_build_encoding_matrix: Vandermonde rows on the points, the fast in-place inversion
+   of_invert_vdm of the top block, of_matmul) and proves that the result is this canonical generator for
+   every 1 <= k <= n <= 2^m (the inversion routine is correct because its first point is 0, which is
+   what the library always passes: a counterexample with a non-zero first point is in the file).
+   The C encoders (both codecs; codec 1 and codec 2 with m=8 therefore byte compatible) and the
+   generator matrices they build are compared with the extracted model on every run. *)
 From Coq Require Import Arith List Bool.
 From Coq Require Import NArith.
-From OFV Require Import XorGroup LdpcEnc GF2Poly GFField RSCanon RSEnc.
+From OFV Require Import XorGroup LdpcEnc GF2Poly GFField RSCanon RSEnc GaussJordan InvertVdm.
 Import ListNotations.
 
 Theorem ldpc_encode_zero_sum :
@@ -73,7 +78,19 @@ Theorem rs256_generator_systematic :
   forall k i j, k <= 256 -> i < k -> j < k -> coef256 k i j = if Nat.eqb i j then 1%N else 0%N.
 Proof. exact coef256_systematic. Qed.
 
+Theorem rs256_library_construction_yields_the_canonical_generator :
+  forall k n, k <= n <= 256 -> 1 <= k -> forall j i, j < n -> i < k ->
+  GaussJordan.get N 0%N (build_enc256 k n) j i = if Nat.ltb j k then (if Nat.eqb i j then 1%N else 0%N) else coef256 k i j.
+Proof. exact build_enc256_spec. Qed.
+
+Theorem rs16_library_construction_yields_the_canonical_generator :
+  forall k n, k <= n <= 16 -> 1 <= k -> forall j i, j < n -> i < k ->
+  GaussJordan.get N 0%N (build_enc16 k n) j i = if Nat.ltb j k then (if Nat.eqb i j then 1%N else 0%N) else coef16 k i j.
+Proof. exact build_enc16_spec. Qed.
+
 Print Assumptions ldpc_encode_zero_sum.
+Print Assumptions rs256_library_construction_yields_the_canonical_generator.
+Print Assumptions rs16_library_construction_yields_the_canonical_generator.
 Print Assumptions rs256_repair_bytes_are_canonical.
 Print Assumptions rs16_repair_bytes_are_canonical.
 Print Assumptions rs256_generator_times_vandermonde.
